@@ -790,6 +790,14 @@ pub fn run_check<C: Check>(c: &C, opts: &Opts) -> i32 {
         }
     }
 
+    // a violation whose oracle is "harness" is a failure of the machinery (missing binary, sandbox
+    // I/O, helper program that did not stop), never a verdict about the system under test
+    if let Some(f) = &found {
+        if f.v.oracle == "harness" {
+            eprintln!("HARNESS-ERROR: {}", f.v.detail);
+            return 2;
+        }
+    }
     known_hits.sort_unstable();
     for h in &known_hits {
         let f = &findings[*h];
